@@ -46,6 +46,15 @@ def core_alphabet():
     return [t for t in full_alphabet() if t[0] < 0xba and len(t) < 100 and t[0] not in (0xa6, 0xa7, 0xa8, 0xa9, 0xaa)]
 
 
+def bfs_alphabet(tier):
+    """quick: the core alphabet without the redundant push spellings (data values {"", 80, 00, 0100, max, min} remain);
+    thorough: the whole core alphabet"""
+    if tier == 'thorough':
+        return core_alphabet()
+    drop = {b'\x04\xff\xff\xff\x7f', b'\x04\xff\xff\xff\xff', b'\x02\x01\x00', b'\x4d\x08\x02' + b'\x11' * 520, b'\x05\x00\x00\x00\x00\x01', b'\x01\x81', b'\x01\x02', b'\x4c\x01\x07', b'\x4d\x01\x00\x07', b'\x4e\x01\x00\x00\x00\x07'}
+    return [t for t in core_alphabet() if t not in drop]
+
+
 ITEMS = [b'', b'\x01', b'\x80', b'\x00', b'\x02', b'\xff\xff\xff\x7f', b'\x00' * 5, b'\x11' * 520]
 
 
@@ -57,7 +66,7 @@ def init_stacks():
 def bounds(tier):
     return {'full_alphabet': len(full_alphabet()), 'core_alphabet': len(core_alphabet()), 'initial_stacks': len(init_stacks()),
             'programs': 'length <= 2 over the full alphabet; length 3 over the %s alphabet; single tokens x all initial stacks x DISCOURAGE on/off' % ('core' if tier == 'quick' else 'full'),
-            'bfs_depth': 4 if tier == 'quick' else 5, 'flag_sets': 12}
+            'bfs_depth': 4 if tier == 'quick' else 5, 'bfs_alphabet': len(bfs_alphabet(tier)), 'flag_sets': 12}
 
 
 def selftest(run):
@@ -195,14 +204,15 @@ class InterpStates(BFSFamily):
     def depth(self, tier):
         return 4 if tier == 'quick' else 5
 
-    def setup(self):
-        self.al = core_alphabet()
+    tier = 'quick'
 
     def events(self, history):
-        return range(len(core_alphabet()))
+        return range(len(bfs_alphabet(self.tier)))
 
     def apply(self, history):
-        al = getattr(self, 'al', None) or core_alphabet()
+        al = self.__dict__.get('_al')
+        if al is None:
+            al = self._al = bfs_alphabet(self.tier)
         prefix = b''.join(al[i] for i in history)
         a = L.lib_state_after(prefix, (), self.fs)
         b = L.ref_state_after(prefix, (), self.fs)
@@ -287,6 +297,55 @@ class Operands(Family):
         if op == 0x87:
             return compare_eval(b'\x87', (data, data[:-1] + b'\x01' if l else b''), NONE, 'EQUAL'), True
         return compare_eval(bytes([op]), (data,), NONE, 'hash/size opcode on %d bytes' % l), True
+
+
+class StackOps(Family):
+    """every stack-manipulation opcode from stacks of depth 0..8 with pairwise distinct items (index slips in the
+    deep opcodes - 2ROT, 2OVER, 2SWAP, TUCK, ROT - need more items than short programs can build), also with items
+    parked on the altstack first"""
+    name = 'stack_manipulation'
+    nontrivial_rule = 'stack depth >= the opcode\'s arity'
+
+    OPS = [0x6b, 0x6c, 0x6d, 0x6e, 0x6f, 0x70, 0x71, 0x72, 0x73, 0x74, 0x75, 0x76, 0x77, 0x78, 0x7b, 0x7c, 0x7d, 0x82, 0x69, 0x87, 0x88]
+
+    def cases(self, shard, tier):
+        for op in self.OPS:
+            for depth in range(0, 9):
+                for variant in ('plain', 'top_false', 'alt2', 'twice'):
+                    yield (op, depth, variant)
+
+    def check(self, case):
+        op, depth, variant = case
+        init = tuple(bytes([0x10 + i]) for i in range(depth))
+        if variant == 'top_false' and depth:
+            init = init[:-1] + (b'',)
+        script = bytes([op])
+        if variant == 'alt2':
+            script = b'\x6b\x6b' + script + b'\x6c\x6c'
+        elif variant == 'twice':
+            script = script + script
+        return compare_eval(script, init, NONE, 'stack op %#x depth %d %s' % (op, depth, variant)), depth >= 1
+
+
+class FlowControl(Family):
+    """every sequence of up to 6 (8 in thorough) tokens over {OP_1, OP_0, IF, NOTIF, ELSE, ENDIF, marker push}:
+    all nestings of conditionals, executed and unexecuted"""
+    name = 'flow_control'
+    nontrivial_rule = 'sequence contains a conditional opcode'
+    TOK = [b'\x51', b'\x00', b'\x63', b'\x64', b'\x67', b'\x68', b'\x01\x07']
+
+    def shards(self, tier):
+        return [(a, b) for a in range(7) for b in range(7)]
+
+    def cases(self, shard, tier):
+        n = 6 if tier == 'quick' else 8
+        for l in range(0, n - 1):
+            for rest in itertools.product(range(7), repeat=l):
+                yield shard + rest
+
+    def check(self, idxs):
+        script = b''.join(self.TOK[i] for i in idxs)
+        return compare_eval(script, (), NONE, 'flow control'), any(i in (2, 3, 4, 5) for i in idxs)
 
 
 # -------------------------------------------------------------------------------------------------------------
@@ -411,7 +470,7 @@ class SignatureOps(Family):
                                 for op in (0xae, 0xaf):
                                     yield ('ms', n, m, slots, order, dummy, nd, op)
         else:
-            for pos in ('before', 'between', 'after', 'unexecuted', 'two'):
+            for pos in ('before', 'between', 'after', 'unexecuted', 'two', 'ms_before', 'ms_between', 'ms_unexecuted', 'ms_two', 'ms_verify'):
                 for signed_from in ('start', 'sep1', 'sep2'):
                     yield ('sep', pos, signed_from)
 
@@ -441,6 +500,13 @@ class SignatureOps(Family):
                     digest = SH.legacy(code_script, m, 0, ht)[0] if sigk != 'otherdigest' else C.sha256d(b'other')
                     sig = _sign(signer, digest, ht)
                 break
+            if pubk in ('badprefix', 'offcurve', 'short', 'empty') and sigk == 'right':
+                # history: a genuine check with the same signer first, so that nothing left over from it can satisfy
+                # the malformed key
+                gpub = EC.encode_point(pt, True)
+                gscript = push(gpub) + b'\xac'
+                gsig = _sign(sec, SH.legacy(gscript, m, 0, 1)[0], 1)
+                compare_eval(gscript, (gsig,), NONE, 'genuine CHECKSIG before a malformed key', checksig=cs, tx=tx)
             if inscript:
                 script = push(sig) + push(pub) + tail
                 init = ()
@@ -475,6 +541,20 @@ class SignatureOps(Family):
         _, pos, signed_from = case
         sec = SIGKEYS[0]
         pub = EC.pubkey(sec, True)
+        if pos.startswith('ms_'):
+            # the same placements with a 1-of-1 CHECKMULTISIG (initial stack: dummy, signature)
+            tail = b'\x51' + push(pub) + b'\x51\xae'
+            body = {'ms_before': b'\xab' + tail, 'ms_between': b'\x51\x75\xab\x51\x75' + tail, 'ms_unexecuted': b'\x00\x63\xab\x68' + tail,
+                    'ms_two': b'\xab\x51\x75\xab' + tail, 'ms_verify': b'\x61\xab' + tail[:-1] + b'\xaf\x51'}[pos]
+            seps = [i + 1 for i, b in enumerate(body) if b == 0xab and RS.parses(body[:i]) and i < len(body) - len(tail)]
+            start = 0
+            if signed_from == 'sep1' and seps:
+                start = seps[0]
+            elif signed_from == 'sep2' and len(seps) > 1:
+                start = seps[1]
+            digest = SH.legacy(body[start:], m, 0, 1)[0]
+            sig = _sign(sec, digest, 1)
+            return compare_eval(body, (b'', sig), NONE, 'CODESEPARATOR %s with CHECKMULTISIG, signature over the script from %s' % (pos, signed_from), checksig=cs, tx=tx), True
         body = {'before': b'\xab' + push(pub) + b'\xac', 'between': b'\x51\x75\xab\x51\x75' + push(pub) + b'\xac',
                 'after': push(pub) + b'\xac\xab', 'unexecuted': b'\x00\x63\xab\x68' + push(pub) + b'\xac',
                 'two': b'\xab\x51\x75\xab' + push(pub) + b'\xac'}[pos]
@@ -612,4 +692,4 @@ class P2SHPairs(Family):
 
 
 def families(tier):
-    return [Programs(), InterpStates(NONE, 'noflags'), InterpStates(BOTH, 'discourage_nulldummy'), Operands(), Limits(), SignatureOps(), VerifyPairs(), P2SHPairs()]
+    return [Programs(), InterpStates(NONE, 'noflags'), InterpStates(BOTH, 'discourage_nulldummy'), Operands(), StackOps(), FlowControl(), Limits(), SignatureOps(), VerifyPairs(), P2SHPairs()]
